@@ -9,9 +9,13 @@
 (*   creator[o]   the code that created o (1 until it calls refDec once)       *)
 (*   h[s] = o     every constructed handle pointing at o                       *)
 (*   explicit[o]  explicit refInc() calls not yet matched by a refDec()        *)
+(*   m[x] = o     the member handle `next` (an IntrusivePtr<Base> embedded in    *)
+(*                objects whose type is in MemberTypes) of a LIVE object x       *)
 (* count[o] is the value useCount() reports.  Every action states its *net*    *)
 (* effect on the counts (Delta); an object is destroyed by exactly the action  *)
-(* whose net effect takes its count to 0.  That the counts so maintained       *)
+(* whose net effect takes its count to 0; the member handle of a dying object  *)
+(* is destroyed with it, which releases its pointee and may destroy further     *)
+(* objects in the same step (cascade).  That the counts so maintained          *)
 (* always equal the number of reference holders, and that destruction happens  *)
 (* exactly at the last release, are invariants / action properties TLC checks  *)
 (* (bottom of this module and RefCountMC).                                     *)
@@ -33,6 +37,7 @@ CONSTANTS NObj,         \* number of objects
           NSlot,        \* number of handle slots
           SlotType,     \* sequence over 1..NSlot of "Base" / "Derived"
           MaxExplicit,  \* bound on outstanding explicit refInc() per object
+          MemberTypes,  \* object types that embed a member handle `next` (subset of {"Base", "Derived"})
           Policy        \* [mc, ma, sm, cmc, cma |-> "release" | "retain" | "swap" | "any"]
 
 VARIABLES st,        \* st[o] \in {"unborn", "alive", "dead"}
@@ -40,8 +45,9 @@ VARIABLES st,        \* st[o] \in {"unborn", "alive", "dead"}
           creator,   \* creator[o] \in {0, 1}
           explicit,  \* explicit[o] \in 0..MaxExplicit
           h,         \* h[s] \in Objs \cup {Null, Unc}
+          m,         \* m[x] \in Objs \cup {Null, Unc}: member handle of object x (Unc: x not alive or has no member)
           last
-vars == <<st, count, creator, explicit, h, last>>
+vars == <<st, count, creator, explicit, h, m, last>>
 
 Objs  == 1..NObj
 Slots == 1..NSlot
@@ -56,10 +62,14 @@ Fits(s, v) == v = Null \/ (v \in Objs /\ (SlotType[s] = "Base" \/ ObjType[v] = "
 Converts(s, t) == SlotType[s] = "Base" \/ SlotType[t] = "Derived"
 Conv(s, t) == IF SlotType[s] = SlotType[t] THEN "" ELSE "Conv"
 
+HasMember(o) == ObjType[o] \in MemberTypes
 HandlesAt(hh, o) == {s \in Slots : hh[s] = o}
+MembersAt(mm, o) == {x \in Objs : mm[x] = o}       \* only live objects have a member handle (m[x] # Unc)
 \* number of reference holders of o (the declarative side of the property)
-RefsOf(hh, cc, ee, o) == cc[o] + Cardinality(HandlesAt(hh, o)) + ee[o]
-Refs(o) == RefsOf(h, creator, explicit, o)
+RefsOf(hh, cc, ee, mm, o) == cc[o] + Cardinality(HandlesAt(hh, o)) + ee[o] + Cardinality(MembersAt(mm, o))
+Refs(o) == RefsOf(h, creator, explicit, m, o)
+\* somebody outside the object graph can reach x: the creator, a pool handle or an explicit reference
+ExternallyHeld(x) == creator[x] = 1 \/ explicit[x] > 0 \/ HandlesAt(h, x) # {}
 
 -------------------------------------------------------------------------------
 \* Observables
@@ -72,7 +82,7 @@ PairSeq == LET n == Cardinality(SamePairs)
 \* (a slot without a handle; two empty handles - they point at no object at all)
 SameVal(a, b) == IF a = Unc \/ b = Unc \/ (a = Null /\ b = Null) THEN -1 ELSE IF a = b THEN 1 ELSE 0
 Same(hh) == [i \in DOMAIN PairSeq |-> SameVal(hh[PairSeq[i][1]], hh[PairSeq[i][2]])]
-Proj(stt, cnt, hh) == [cnt |-> Cnt(stt, cnt), ptr |-> hh, same |-> Same(hh)]
+Proj(stt, cnt, hh, mm) == [cnt |-> Cnt(stt, cnt), mem |-> mm, ptr |-> hh, same |-> Same(hh)]
 
 SetToSeq(S) == LET n == Cardinality(S) IN [i \in 1..n |-> CHOOSE x \in S : Cardinality({y \in S : y < x}) = i - 1]
 DiedSeq(D) == LET q == SetToSeq(D) IN [i \in DOMAIN q |-> [o |-> q[i], t |-> ObjType[q[i]]]]
@@ -80,23 +90,40 @@ DiedSeq(D) == LET q == SetToSeq(D) IN [i \in DOMAIN q |-> [o |-> q[i], t |-> Obj
 -------------------------------------------------------------------------------
 \* Net effects
 Zero == [o \in Objs |-> 0]
-\* one reference to p gained, one reference to m given up (Null / Unc: none)
-D(p, m) == [o \in Objs |-> (IF o = p THEN 1 ELSE 0) - (IF o = m THEN 1 ELSE 0)]
+\* one reference to p gained, one reference to q given up (Null / Unc: none)
+D(p, q) == [o \in Objs |-> (IF o = p THEN 1 ELSE 0) - (IF o = q THEN 1 ELSE 0)]
 Dying(delta) == {o \in Objs : Alive(o) /\ delta[o] # 0 /\ count[o] + delta[o] = 0}
 
-\* the common tail of every action: new handle map, count deltas, new creator / explicit books
-Commit(a, arg, cls, hn, delta, cn, en, ret) ==
-  LET dies == Dying(delta) IN
+\* Destroying an object destroys its member handle, which releases the member's pointee, which may
+\* thereby lose its last reference, and so on.  mn: member map after the action's direct effect;
+\* cnt: counts so far; dead: objects destroyed so far; todo: destroyed objects whose member is still to be released.
+RECURSIVE Cascade(_, _, _, _)
+Cascade(mn, cnt, dead, todo) ==
+  IF todo = {} THEN [cnt |-> cnt, dead |-> dead]
+  ELSE LET x == CHOOSE x \in todo : TRUE
+           y == mn[x]
+           cnt2 == IF y \in Objs THEN [cnt EXCEPT ![y] = @ - 1] ELSE cnt
+           nd == IF y \in Objs /\ y \notin dead /\ cnt2[y] = 0 THEN {y} ELSE {}
+       IN Cascade(mn, cnt2, dead \cup nd, (todo \ {x}) \cup nd)
+
+\* the common tail of every action: new handle map, new member map, count deltas, new creator / explicit books
+Commit(a, arg, cls, hn, mn, delta, cn, en, ret) ==
+  LET d0 == Dying(delta)
+      res == Cascade(mn, [o \in Objs |-> count[o] + delta[o]], d0, d0)
+      dies == res.dead
+  IN
   /\ h' = hn
+  /\ m' = [o \in Objs |-> IF o \in dies THEN Unc ELSE mn[o]]
   /\ creator' = cn
   /\ explicit' = en
-  /\ count' = [o \in Objs |-> count[o] + delta[o]]
+  /\ count' = res.cnt
   /\ st' = [o \in Objs |-> IF o \in dies THEN "dead" ELSE st[o]]
   /\ last' = [a |-> a, arg |-> arg, cls |-> IF dies = {} THEN cls ELSE cls \o ",kills",
-              exp |-> ret @@ [died |-> DiedSeq(dies)] @@ Proj(st', count', h')]
+              exp |-> ret @@ [died |-> DiedSeq(dies)] @@ Proj(st', count', h', m')]
 
-HandleStep(a, arg, cls, hn, delta) == Commit(a, arg, cls, hn, delta, creator, explicit, [ret |-> "void"])
-Query(a, arg, cls, ret) == Commit(a, arg, cls, h, Zero, creator, explicit, [ret |-> ret])
+HandleStep(a, arg, cls, hn, delta) == Commit(a, arg, cls, hn, m, delta, creator, explicit, [ret |-> "void"])
+MemberStep(a, arg, cls, hn, mn, delta) == Commit(a, arg, cls, hn, mn, delta, creator, explicit, [ret |-> "void"])
+Query(a, arg, cls, ret) == Commit(a, arg, cls, h, m, Zero, creator, explicit, [ret |-> ret])
 
 V(x) == IF x = Null THEN "null" ELSE "obj"
 \* input class of an operation taking handle t into handle s
@@ -117,25 +144,26 @@ New(o) ==           \* new T: a fresh object (a new incarnation of model object 
   /\ creator' = [creator EXCEPT ![o] = 1]
   /\ explicit' = [explicit EXCEPT ![o] = 0]
   /\ h' = h
+  /\ m' = [m EXCEPT ![o] = IF HasMember(o) THEN Null ELSE Unc]      \* the member handle is default-constructed: empty
   /\ last' = [a |-> "New", arg |-> [o |-> o], cls |-> ObjType[o],
-              exp |-> [ret |-> "void", died |-> <<>>] @@ Proj(st', count', h')]
+              exp |-> [ret |-> "void", died |-> <<>>] @@ Proj(st', count', h', m')]
 
 CanCreatorDrop(o) == Alive(o) /\ creator[o] = 1
 CreatorDrop(o) ==   \* the creating code releases its reference: obj->refDec()
   /\ CanCreatorDrop(o)
   /\ Commit("CreatorDrop", [o |-> o], IF count[o] = 1 THEN "last" ELSE "shared",
-            h, D(Null, o), [creator EXCEPT ![o] = 0], explicit, [ret |-> "void"])
+            h, m, D(Null, o), [creator EXCEPT ![o] = 0], explicit, [ret |-> "void"])
 
 CanRefInc(o) == Alive(o) /\ explicit[o] < MaxExplicit
 RefInc(o) ==        \* obj->refInc() by someone who holds a reference
   /\ CanRefInc(o)
-  /\ Commit("RefInc", [o |-> o], "", h, D(o, Null), creator, [explicit EXCEPT ![o] = @ + 1], [ret |-> "void"])
+  /\ Commit("RefInc", [o |-> o], "", h, m, D(o, Null), creator, [explicit EXCEPT ![o] = @ + 1], [ret |-> "void"])
 
 CanRefDec(o) == Alive(o) /\ explicit[o] > 0
 RefDec(o) ==        \* obj->refDec() matching an earlier explicit refInc() (never more than owned)
   /\ CanRefDec(o)
   /\ Commit("RefDec", [o |-> o], IF count[o] = 1 THEN "last" ELSE "shared",
-            h, D(Null, o), creator, [explicit EXCEPT ![o] = @ - 1], [ret |-> "void"])
+            h, m, D(Null, o), creator, [explicit EXCEPT ![o] = @ - 1], [ret |-> "void"])
 
 -------------------------------------------------------------------------------
 \* Handle constructors
@@ -197,6 +225,53 @@ Dtor(s) ==
   /\ HandleStep("Dtor", [s |-> s], V(h[s]), [h EXCEPT ![s] = Unc], D(Null, h[s]))
 
 -------------------------------------------------------------------------------
+\* Member handles: objects that own a handle (x.next).  The caller reaches x through a reference it holds.
+NextCls(x) == IF m[x] = Null THEN "null" ELSE IF m[x] = x THEN "self" ELSE "obj"
+
+CanSetMember(x, t) == x \in Objs /\ Alive(x) /\ HasMember(x) /\ ExternallyHeld(x) /\ Constructed(t)
+SetMember(x, t) ==      \* x.next = handle t   (copy assignment into the member; a Derived handle converts)
+  /\ CanSetMember(x, t)
+  /\ MemberStep("SetMember", [o |-> x, t |-> t],
+                "val=" \o (IF h[t] = Null THEN "null" ELSE IF h[t] = x THEN "self" ELSE "obj") \o ",old=" \o NextCls(x),
+                h, [m EXCEPT ![x] = h[t]], D(h[t], m[x]))
+
+CanClearMember(x) == x \in Objs /\ Alive(x) /\ HasMember(x) /\ ExternallyHeld(x)
+ClearMember(x) ==       \* x.next = nullptr
+  /\ CanClearMember(x)
+  /\ MemberStep("ClearMember", [o |-> x], "old=" \o NextCls(x), h, [m EXCEPT ![x] = Null], D(Null, m[x]))
+
+\* the source of the operation is the member handle of the object handle t designates: obj(t).next.
+\* With h[s] = h[t] this is the chain walk `cur = cur->next`: the handle assigned FROM lives inside the
+\* object the assignment may release.
+MemberSource(t) == Constructed(t) /\ h[t] \in Objs /\ HasMember(h[t])
+MCls(s, t) == IF h[s] = h[t]
+              THEN "src=member-of-dst-target,next=" \o NextCls(h[t]) \o (IF count[h[t]] = 1 THEN ",last-ref" ELSE "")
+              ELSE "src=member-of-other,next=" \o NextCls(h[t]) \o ",dst=" \o
+                   (IF h[s] = Unc THEN "new" ELSE IF h[s] = Null THEN "null" ELSE IF h[s] = m[h[t]] THEN "same" ELSE "obj")
+
+CanCopyCtorFromMember(s, t) == s # t /\ h[s] = Unc /\ SlotType[s] = "Base" /\ MemberSource(t)
+CopyCtorFromMember(s, t) ==     \* IntrusivePtr<Base> s(obj(t).next)
+  /\ CanCopyCtorFromMember(s, t)
+  /\ MemberStep("CopyCtorFromMember", [s |-> s, t |-> t], MCls(s, t), [h EXCEPT ![s] = m[h[t]]], m, D(m[h[t]], Null))
+
+CanAssignFromMember(s, t) == Constructed(s) /\ SlotType[s] = "Base" /\ MemberSource(t)
+CopyAssignFromMember(s, t) ==   \* s = obj(t).next
+  /\ CanAssignFromMember(s, t)
+  /\ MemberStep("CopyAssignFromMember", [s |-> s, t |-> t], MCls(s, t), [h EXCEPT ![s] = m[h[t]]], m, D(m[h[t]], h[s]))
+
+\* s = std::move(obj(t).next): same code path as a plain move assignment (kind "ma"), the source being a member
+MoveEffM(s, x, out) ==
+  CASE out = "release" -> [hn |-> [h EXCEPT ![s] = m[x]], mn |-> [m EXCEPT ![x] = Null], d |-> D(Null, h[s])]
+    [] out = "retain"  -> [hn |-> [h EXCEPT ![s] = m[x]], mn |-> m, d |-> D(m[x], h[s])]
+    [] out = "swap"    -> [hn |-> [h EXCEPT ![s] = m[x]], mn |-> [m EXCEPT ![x] = h[s]], d |-> Zero]
+MoveAssignFromMemberOut(s, t, out) ==
+  /\ CanAssignFromMember(s, t)
+  /\ out \in Admitted("ma")
+  /\ MemberStep("MoveAssignFromMember", [s |-> s, t |-> t], MCls(s, t),
+                MoveEffM(s, h[t], out).hn, MoveEffM(s, h[t], out).mn, MoveEffM(s, h[t], out).d)
+MoveAssignFromMember(s, t) == \E out \in Outs("ma") : MoveAssignFromMemberOut(s, t, out)
+
+-------------------------------------------------------------------------------
 \* Queries
 CanBool(s) == Constructed(s)
 Bool(s) ==          \* operator bool
@@ -223,13 +298,16 @@ Init ==
   /\ st = [o \in Objs |-> "unborn"]
   /\ count = Zero /\ creator = Zero /\ explicit = Zero
   /\ h = [s \in Slots |-> Unc]
-  /\ last = [a |-> "Init", arg |-> <<>>, cls |-> "", exp |-> [ret |-> "void", died |-> <<>>] @@ Proj(st, count, h)]
+  /\ m = [o \in Objs |-> Unc]
+  /\ last = [a |-> "Init", arg |-> <<>>, cls |-> "", exp |-> [ret |-> "void", died |-> <<>>] @@ Proj(st, count, h, m)]
 
 Next ==
   \/ \E o \in Objs : New(o) \/ CreatorDrop(o) \/ RefInc(o) \/ RefDec(o)
   \/ \E s \in Slots : DefaultCtor(s) \/ Dtor(s) \/ Bool(s) \/ Arrow(s)
   \/ \E s \in Slots, v \in Objs \cup {Null} : RawCtor(s, v) \/ RawAssign(s, v)
   \/ \E s, t \in Slots : CopyCtor(s, t) \/ MoveCtor(s, t) \/ CopyAssign(s, t) \/ MoveAssign(s, t) \/ Compare(s, t)
+  \/ \E x \in Objs : ClearMember(x) \/ \E t \in Slots : SetMember(x, t)
+  \/ \E s, t \in Slots : CopyCtorFromMember(s, t) \/ CopyAssignFromMember(s, t) \/ MoveAssignFromMember(s, t)
 
 Spec == Init /\ [][Next]_vars
 
@@ -240,23 +318,26 @@ TypeOK ==
   /\ creator \in [Objs -> {0, 1}]
   /\ explicit \in [Objs -> 0..MaxExplicit]
   /\ h \in [Slots -> Objs \cup {Null, Unc}]
-  /\ \A o \in Objs : count[o] \in 0..(1 + NSlot + MaxExplicit)
+  /\ m \in [Objs -> Objs \cup {Null, Unc}]
+  /\ \A o \in Objs : (m[o] # Unc) <=> (Alive(o) /\ HasMember(o))
+  /\ \A o \in Objs : count[o] \in 0..(1 + NSlot + MaxExplicit + NObj)
 
-\* useCount() = creator's reference + live handles pointing at the object + outstanding explicit references
+\* useCount() = creator's reference + live handles pointing at the object (pool handles and member handles of
+\* live objects) + outstanding explicit references
 Conservation == \A o \in Objs : Alive(o) => count[o] = Refs(o)
 \* alive exactly while referenced: never destroyed while a reference remains, never kept without one
 AliveIffReferenced == \A o \in Objs : (Alive(o) <=> Refs(o) > 0) /\ (Alive(o) => count[o] > 0)
 \* no handle and no book entry designates a destroyed or never-created object
-NoDangling == \A o \in Objs : ~Alive(o) => HandlesAt(h, o) = {} /\ creator[o] = 0 /\ explicit[o] = 0
+NoDangling == \A o \in Objs : ~Alive(o) => HandlesAt(h, o) = {} /\ MembersAt(m, o) = {} /\ creator[o] = 0 /\ explicit[o] = 0
 StaticTypes == \A s \in Slots : Fits(s, IF h[s] = Unc THEN Null ELSE h[s])
-LastAgrees == last.exp.cnt = Cnt(st, count) /\ last.exp.ptr = h
+LastAgrees == last.exp.cnt = Cnt(st, count) /\ last.exp.ptr = h /\ last.exp.mem = m
 
 \* an object is destroyed by exactly the step that releases its last reference, and that step says so
 DiesAtLastRelease ==
   [][\A o \in Objs :
        LET dead == Alive(o) /\ st'[o] = "dead"
            reported == \E i \in DOMAIN last'.exp.died : last'.exp.died[i].o = o
-       IN /\ dead <=> (Alive(o) /\ Refs(o) > 0 /\ RefsOf(h', creator', explicit', o) = 0)
+       IN /\ dead <=> (Alive(o) /\ Refs(o) > 0 /\ RefsOf(h', creator', explicit', m', o) = 0)
           /\ reported <=> dead
           /\ st[o] = "dead" => st'[o] = "dead" \/ last'.a = "New"]_vars
 \* handles compare equal exactly when they designate the same object
@@ -264,5 +345,5 @@ EqualIffSameObject ==
   [][last'.a = "Compare" =>
        /\ last'.exp.ret.eq = (h[last'.arg.s] = h[last'.arg.t])
        /\ last'.exp.ret.ne = ~last'.exp.ret.eq
-       /\ UNCHANGED <<st, count, creator, explicit, h>>]_vars
+       /\ UNCHANGED <<st, count, creator, explicit, h, m>>]_vars
 ===============================================================================
